@@ -21,7 +21,7 @@ RULE = ("Generated directory layouts in a temp dir: any non-empty subset of {dir
         "be the identical object on re-access even after the file was deleted, and a missing / undecodable / invalid file "
         "must surface as RuntimeError naming the location (other exception types for structurally incomplete files must "
         "still raise). Non-trivial = >= 2 locations populated, or a legacy file name, or invalid content; distinct = SHA-1 "
-        "of the layout. A failing accessor is read twice (same failure again); builtins.open is traced: a candidate file that was opened, is unusable and did not surface is a violation whatever the probing order.")
+        "of the layout. A failing accessor is read twice (same failure again); builtins.open is traced: a candidate file that was opened, is unusable and did not surface is a violation whatever the probing order. The directory is rebuilt under the same path and opened by a new object; a second object asked in the opposite order must give the same answers; directory names carry pattern characters, blanks and non-ASCII letters.")
 ASSUMPTIONS = ["precedence between direct and legacy locations, between two legacy locations and between the two spellings of a manifest name is left open by the statement: any candidate is accepted",
                "http(s) access is not exercised (no network)"]
 FLOORS = {"layouts": 250, "layouts:invalid-content": 60, "layouts:legacy-name": 60, "layouts:>=2-locations": 100}
